@@ -29,7 +29,8 @@ theorem step_lock_other {s s' : State} {e : Event} (hK : LockInv s) (hs : step s
   all_goals (try (
     simp only [setPc_notes, acquire_f_lockHolder, release_f_lockHolder, incDisc_f_lockHolder,
       decDisc_f_lockHolder, link_f_lockHolder, unlink_f_lockHolder, eraseChild_f_lockHolder,
-      clearParent_f_lockHolder, enterChild_notes, freeLoopStart_notes, childReturn_f_lockHolder]
+      clearParent_f_lockHolder, enterChild_notes, freeLoopStart_f_lockHolder, childReturn_f_lockHolder,
+      setAdopted_f_lockHolder, childScanStart_f_lockHolder]
     (repeat' split) <;> simp_all <;> (intro h; exact ht (Option.some.inj h).symm)))
   · rename_i k0 hfresh
     simp only [setPc_notes, allocNote_f]
@@ -54,17 +55,17 @@ theorem LockInv.actor {s s' : State} {e : Event} (hK : LockInv s) (hN : InvN s) 
   all_goals (try subst ha)
   all_goals (try (rw [‹s.pc _ = _›] at hc hcN; simp only [‹s.pc _ = _›] at hl))
   all_goals (try (simp only [setPc_pc, upd_same, afterDeadline_pc, afterNotify_pc, childReturn_pc,
-    childWakeNext_pc, freeLoopStart_pc, enterChild_pc, leave_pc, addUser_pc, markCalled_pc,
+    childWakeNext_pc, childScanStart_pc, freeLoopStart_pc, enterChild_pc, leave_pc, addUser_pc, markCalled_pc,
     markFreeing_pc, setAfter_pc, pushObs_pc, publish_pc, delUser_pc]))
   all_goals (try (simp only [held_childReturnPc _ _ _ hc.2.2.1]))
   all_goals (try (simp only [held_afterDeadlinePc, held_afterNotifyPc, held_childWakeNextPc,
-    held_freeLoopStartPc]))
+    held_freeLoopStartPc, held_childLoopStartPc]))
   all_goals (try (simpa [PC.held] using hl k; done))
   all_goals (try (
     simp only [setPc_notes, acquire_f_lockHolder, release_f_lockHolder, incDisc_f_lockHolder,
       decDisc_f_lockHolder, link_f_lockHolder, unlink_f_lockHolder, eraseChild_f_lockHolder,
-      clearParent_f_lockHolder, enterChild_notes, freeLoopStart_notes, childReturn_f_lockHolder,
-      childWakeNext_f_lockHolder, setNotified_f_lockHolder, afterDeadline_f_lockHolder,
+      clearParent_f_lockHolder, enterChild_notes, freeLoopStart_f_lockHolder, childReturn_f_lockHolder,
+      setAdopted_f_lockHolder, childScanStart_f_lockHolder, childWakeNext_f_lockHolder, setNotified_f_lockHolder, afterDeadline_f_lockHolder,
       afterNotify_f_lockHolder, markBorn_notes,
       PC.held] at hl ⊢
     first
@@ -129,7 +130,7 @@ theorem LockInv.actor {s s' : State} {e : Event} (hK : LockInv s) (hN : InvN s) 
   · rename_i k0 _ f rest top _ hch _ _ hk
     subst hk
     have hab := LClaim.above_head hL hc
-    have hd : decide ((s.notes f.note).children = []) = false := by simpa using hch
+    have hd : (s.notes f.note).waitDone = false := by simpa using hch
     simp only [setPc_notes, release_f_lockHolder, hd, PC.held, List.map_cons, List.tail_cons,
       List.cons_append, List.mem_cons] at hl ⊢
     split
@@ -142,7 +143,7 @@ theorem LockInv.actor {s s' : State} {e : Event} (hK : LockInv s) (hN : InvN s) 
   -- free: WAIT_FOR_NO_CHILDREN releases the lock
   · rename_i k0 _ n par c nx _ hch _ _ hk
     subst hk
-    have hd : decide ((s.notes k0).children = []) = false := by simpa using hch
+    have hd : (s.notes k0).waitDone = false := by simpa using hch
     simp only [setPc_notes, release_f_lockHolder, hd, PC.held, List.mem_cons] at hl ⊢
     split
     · next h =>
